@@ -193,3 +193,14 @@ def ssp_r1(A, b):
         if v[i] < 0:
             bad.append("row %d: 1 - sum alpha = %s" % (i, v[i]))
     return bad
+
+
+def achieved_order(A, b, maxorder=4):
+    """largest p <= maxorder such that all order conditions up to p hold exactly (0: not even consistent)"""
+    p = 0
+    for o in range(1, maxorder + 1):
+        if all(lhs == rhs for cn, lhs, rhs in order_conditions(A, b, o)):
+            p = o
+        else:
+            break
+    return p
